@@ -26,7 +26,7 @@ func (pass *AddObject) processSchema(visitor *Visitor, schema *ast.Schema) (*ast
 		return schema, nil
 	}
 
-	newObject := ast.NewObject(pass.Object.Package, pass.Object.Object, pass.As)
+	newObject := ast.NewObject(pass.Object.Package, pass.Object.Object, pass.As.DeepCopy())
 	newObject.Comments = pass.Comments
 	newObject.AddToPassesTrail("AddObject[created]")
 
